@@ -30,13 +30,44 @@ Judge(s, k, got, out, eq, again) ==
   ELSE IF ~eq THEN <<"viol", "decoded-echo-differs-from-first-value">>
   ELSE IF ~again THEN <<"viol", "second-echo-differs">>
   ELSE <<"ok", "">>
-Verdict(o) ==
+\* A value built in the driver process by a type-directed change of a decoded value (not
+\* read from JSON) that passes its own Validate: the server must write it (code 1), the
+\* text must be well-formed JSON, valid against the schema when the domain can hold it
+\* (out.t = "opaque" otherwise), accepted again and decoded to an equal value.
+KnownB == KnownDeviations \cap (EchoDeviations \cup BuiltDeviations)
+\* an object schema without declared members anywhere below S0 (the shape Dev_NilPointerEmptyStruct needs)
+BuiltClass(o) ==
+  IF o.code # 1 THEN "built-value-not-written"
+  ELSE IF o.out.t = "malformed" THEN "built-value-written-as-malformed-json"
+  ELSE IF o.out.t # "opaque" /\ ~WellFormed(o.out) THEN "built-value-written-with-a-repeated-member"
+  ELSE IF o.out.t # "opaque" /\ ~Valid(o.schema, o.out) THEN "built-value-written-as-json-invalid-against-schema"
+  \* a text outside the value domain cannot be judged against the schema here: a refusal of
+  \* it is left unjudged (it may be one of the recorded member-count cases)
+  ELSE IF ~o.dec THEN (IF o.out.t = "opaque" THEN "ok" ELSE "own-encoding-of-built-value-refused")
+  ELSE IF ~o.eq THEN "built-value-decodes-to-a-different-value"
+  ELSE "ok"
+BuiltVerdict(o) ==
+  LET c == BuiltClass(o) IN
+  IF c = "ok" THEN "ok"
+  \* the change itself names the shape two of the recorded findings need
+  ELSE IF o.what = "map-key-named-like-a-member" /\ "Dev_AdditionalPropsKeyNamedLikeMember" \in KnownB THEN "known=Dev_AdditionalPropsKeyNamedLikeMember"
+  ELSE IF o.what = "raw-nil" /\ c = "built-value-written-as-malformed-json" /\ "Dev_NilRawWrittenAsNothing" \in KnownB THEN "known=Dev_NilRawWrittenAsNothing"
+  ELSE IF o.what \in {"ptr-nil", "opt-set-zero-value"} /\ c = "built-value-decodes-to-a-different-value" /\ o.emptyStruct /\ "Dev_NilPointerEmptyStruct" \in KnownB THEN "known=Dev_NilPointerEmptyStruct"
+  ELSE IF o.what = "slice-append-zero-value" /\ c = "built-value-decodes-to-a-different-value" /\ o.sharedArray /\ "Dev_SharedArrayNilSemantic" \in KnownB THEN "known=Dev_SharedArrayNilSemantic"
+  \* written text invalid / refused again, but valid once a recorded deviation is switched on
+  ELSE IF c \in {"built-value-written-as-json-invalid-against-schema", "own-encoding-of-built-value-refused"} /\ o.out.t # "opaque" /\ ~Valid(o.schema, o.out)
+          /\ \E d \in KnownB : ImplValid(o.schema, o.out, {d})
+       THEN "known=" \o (IF "Dev_PropertyCountNotInValidate" \in KnownB /\ ImplValid(o.schema, o.out, {"Dev_PropertyCountNotInValidate"}) THEN "Dev_PropertyCountNotInValidate"
+                          ELSE CHOOSE d \in KnownB : ImplValid(o.schema, o.out, {d}))
+  ELSE "viol-" \o c
+EchoVerdict(o) ==
   LET J(k) == Judge(o.schema, k, o.got[k], o.out[k], o.eq[k], o.again[k])
       bad == {k \in 1..Len(o.got) : J(k)[1] = "viol"}
       known == {k \in 1..Len(o.got) : J(k)[1] = "known"} IN
   IF bad # {} THEN LET k == CHOOSE x \in bad : \A y \in bad : x <= y IN "viol-" \o J(k)[2] \o "-" \o ToString(k)
   ELSE IF known # {} THEN LET k == CHOOSE x \in known : \A y \in known : x <= y IN "known=" \o J(k)[2] \o "-" \o ToString(k)
   ELSE "ok"
+Verdict(o) == IF "k" \in DOMAIN o THEN BuiltVerdict(o) ELSE EchoVerdict(o)
 VARIABLE l
 Init == l = 0
 Next == l < Len(Obs) /\ l' = l + 1 /\ Report(l', Verdict(Obs[l']))
